@@ -109,6 +109,12 @@ private:
 	// The object's raw attributes
 	std::map<CK_ATTRIBUTE_TYPE, OSAttribute*> attributes;
 
+	// The attributes as they were when the running transaction started
+	std::map<CK_ATTRIBUTE_TYPE, OSAttribute*> savedAttributes;
+
+	// Is a transaction running?
+	bool inTransaction;
+
 	// The object's validity state
 	bool valid;
 
